@@ -22,6 +22,8 @@ import operator
 import re
 import types
 
+import z3
+
 from .values import (SBool, SInt, SReal, SStr, SBytes, SOpaque, Unsupported, is_symbolic, mk_bool,
                      term_bool, Not, And, Or)
 from .engine import PathEnd, EngineError
@@ -128,7 +130,7 @@ def _has_yield(node):
 
 
 class Frame(object):
-    __slots__ = ('locals', 'parent', 'globals', 'qualname', 'cells', 'yields', 'loops', 'global_names')
+    __slots__ = ('locals', 'parent', 'globals', 'qualname', 'cells', 'yields', 'loops', 'global_names', 'first_param')
 
     def __init__(self, globs, parent=None, qualname='?', cells=None):
         self.locals = {}
@@ -139,6 +141,7 @@ class Frame(object):
         self.yields = None
         self.loops = None
         self.global_names = set()
+        self.first_param = None
 
 
 class InterpFunction(object):
@@ -305,6 +308,10 @@ class Interp(object):
     def native_guarded(self, f, args, kwargs):
         """Native call of something that is not repository code and has no model."""
         sym = any(_deep_symbolic(a) for a in args) or any(_deep_symbolic(v) for v in kwargs.values())
+        if sym and _is_log_call(f, args):
+            # assumed: emitting a log record has no effect on the library's state (arguments are already evaluated)
+            self.functions_seen.setdefault('logging.Logger.%s [no effect on library state]' % f.__name__, 'assumed')
+            return None
         if sym and not _native_safe(f):
             raise Unsupported('no model for %s with symbolic arguments' % qualname_of(f))
         return self.native(f, args, kwargs)
@@ -362,6 +369,8 @@ class Interp(object):
             raise Unsupported('interpreter recursion depth')
         try:
             self.bind(node.args, frame, list(args), dict(kwargs), defaults, kw_defaults)
+            pos = list(getattr(node.args, 'posonlyargs', [])) + list(node.args.args)
+            frame.first_param = pos[0].arg if pos else None
             if isinstance(node, ast.Lambda):
                 return self.eval(node.body, frame)
             if _has_yield(node):
@@ -1212,8 +1221,18 @@ class Interp(object):
             else:
                 kwargs[k.arg] = self.eval(k.value, frame)
         if f is builtins.super and not args:
-            # zero-argument super(): resolve from the frame
-            raise Unsupported('zero-argument super()')
+            # zero-argument super(): the compiler's __class__ cell of the enclosing method and its first parameter
+            fr = frame
+            while fr is not None and not ('__class__' in fr.cells and fr.first_param is not None):
+                fr = fr.parent
+            if fr is None or fr.first_param not in fr.locals:
+                raise Unsupported('zero-argument super() outside a method of a real class')
+            cell = fr.cells['__class__']
+            try:
+                owner = cell.cell_contents
+            except ValueError:
+                raise Unsupported('zero-argument super(): empty __class__ cell')
+            return self.call_value(builtins.super, [owner, fr.locals[fr.first_param]], {})
         if f is builtins.locals or f is builtins.globals or f is builtins.eval or f is builtins.exec:
             raise Unsupported('reflection builtin')
         return self.call_value(f, args, kwargs)
@@ -1225,10 +1244,39 @@ class Interp(object):
                 parts.append(v.value)
             else:
                 x = self.eval(v.value, frame)
-                if is_symbolic(x):
-                    raise Unsupported('f-string over a symbolic value')
-                parts.append(format(x, self.eval(v.format_spec, frame) if v.format_spec else ''))
-        return ''.join(parts)
+                spec = self.eval(v.format_spec, frame) if v.format_spec else ''
+                if is_symbolic(spec):
+                    raise Unsupported('f-string with a symbolic format spec')
+                if is_symbolic(x) or _deep_symbolic(x) or (self.is_repo_object(x) and not isinstance(x, type)):
+                    # {x}, {x!s}, {x!r}: the same (assumed) conversions as '%s' / '%r'; {n:x} / {n:d} of an int as '%x' / '%d'
+                    from .builtins_model import _to_sstr, hex_of_int
+                    if v.conversion in (-1, 115, 114) and spec == '':
+                        parts.append(_to_sstr(self, x, 'r' if v.conversion == 114 else 's'))
+                    elif v.conversion == -1 and spec in ('x', 'd') and isinstance(x, SInt):
+                        parts.append(hex_of_int(x) if spec == 'x' else _to_sstr(self, x, 'd'))
+                    else:
+                        raise Unsupported('f-string conversion %r / format spec %r over a symbolic value' % (v.conversion, spec))
+                    continue
+                if v.conversion == 114:
+                    x = repr(x)
+                elif v.conversion == 115:
+                    x = str(x)
+                elif v.conversion == 97:
+                    x = ascii(x)
+                try:
+                    parts.append(format(x, spec))
+                except Exception as ex:     # the program's own exception
+                    raise PyRaise(ex)
+        if all(isinstance(q, str) for q in parts):
+            return ''.join(parts)
+        out = None
+        for q in parts:
+            if isinstance(q, str):
+                if not q:
+                    continue
+                q = SStr(z3.StringVal(q))
+            out = q if out is None else out + q
+        return out if out is not None else ''
 
     def e_Starred(self, e, frame):
         raise Unsupported('starred expression outside a call or display')
@@ -1364,6 +1412,15 @@ def _template_attrs(tp):
 
 def _mentions_symbolic(e):
     return bool(_MODEL_NAMES.search(str(e)))
+
+
+def _is_log_call(f, args=()):
+    import logging
+    recv = getattr(f, '__self__', None)
+    if recv is None and args and getattr(f, '__module__', None) == 'logging':
+        recv = args[0]                      # the unbound function with the logger as its first argument
+    return (isinstance(recv, (logging.Logger, logging.LoggerAdapter)) and
+            getattr(f, '__name__', '') in ('debug', 'info', 'warning', 'warn', 'error', 'exception', 'critical', 'log'))
 
 
 def _model_gap(e):
